@@ -24,6 +24,7 @@ import (
 	"io"
 	"net"
 	"strconv"
+	"sync/atomic"
 	"time"
 
 	"github.com/prometheus/client_golang/prometheus"
@@ -183,6 +184,10 @@ type Handler struct {
 	parser                  *sqlparser.Parser
 	protocolState           *ProtocolState
 	registry                *PreparedStatementRegistry
+	// connectionPhaseFinished is set by the database side when the server ends the connection phase
+	// (handshake and authentication) with an OK packet; until then the client's packets carry
+	// authentication data, not commands
+	connectionPhaseFinished atomic.Bool
 }
 
 // NewMysqlProxy returns new Handler
@@ -371,6 +376,17 @@ func (handler *Handler) ProxyClientConnection(ctx context.Context, errCh chan<- 
 		handler.clientSequenceNumber = int(packet.GetSequenceNumber())
 		clientLog = clientLog.WithField("sequence_number", handler.clientSequenceNumber)
 		clientLog.Debugln("New packet")
+		if !handler.connectionPhaseFinished.Load() {
+			// handshake response, answer to an authentication method switch, ...: the first byte is not a command
+			clientLog.Debugln("Forward connection phase packet")
+			if _, err := handler.dbConnection.Write(packet.Dump()); err != nil {
+				clientLog.WithError(err).WithField(logging.FieldKeyEventCode, logging.EventCodeErrorNetworkWrite).
+					Debugln("Can't write send packet to db")
+				errCh <- base.NewClientProxyError(err)
+				return
+			}
+			continue
+		}
 		data := packet.GetData()
 		cmd := data[0]
 		data = data[1:]
@@ -1000,6 +1016,10 @@ func (handler *Handler) ProxyDatabaseConnection(ctx context.Context, errCh chan<
 		handler.logger.WithField("sequence_number", packet.GetSequenceNumber()).Debugln("New packet from db to client")
 		if packet.IsErr() {
 			handler.resetQueryHandler()
+		}
+		if state == stateServe && !handler.connectionPhaseFinished.Load() && packet.data[0] == OkPacket {
+			// the server accepted the client: from now on the client sends commands
+			handler.connectionPhaseFinished.Store(true)
 		}
 
 		switch state {
